@@ -21,6 +21,9 @@ func VerifC34ThrottleClose() { c34Run(1, true, true) }
 func VerifC34Throttle()      { c34Run(1, false, true) }
 
 func c34Run(nprod int, withClose, withThrottle bool) {
+	// native replay: real goroutines; interleaving-dependent counterexamples are
+	// confirmed by repeated runs with random delays at the instrumented points
+	sym.FreeRun()
 	db := VerifOpenPipelineDB(2, false)
 	keys := []string{"k1", "k2", "k3"}
 	errs := make([]error, 3)
@@ -33,29 +36,29 @@ func c34Run(nprod int, withClose, withThrottle bool) {
 	for i := 0; i < nprod; i++ {
 		i := i
 		vals[i] = sym.Bytes("val", 1)
-		running++
+		sym.Ghost(func() { running++ })
 		sym.Go(func() {
 			errs[i] = db.Set([]byte(keys[i]), vals[i])
 			returned[i] = true
-			running--
+			sym.Ghost(func() { running-- })
 		})
 	}
 	if withThrottle {
-		running++
+		sym.Ghost(func() { running++ })
 		sym.Go(func() {
 			db.applyThrottle(true)
 			sym.Yield()
 			db.applyThrottle(false)
-			running--
+			sym.Ghost(func() { running-- })
 		})
 	}
 	closed := false
 	if withClose {
-		running++
+		sym.Ghost(func() { running++ })
 		sym.Go(func() {
 			VerifClosePipeline(db)
 			closed = true
-			running--
+			sym.Ghost(func() { running-- })
 		})
 	}
 	// (the commit worker keeps running until the pipeline is closed)
